@@ -301,6 +301,8 @@ class DRFNet(BayesianNetwork):
             n = self.Ns
         elif type(n) == int:
             n = [n] * self.e
+        # The forests draw from numpy's global generator (see drf.predict)
+        np.random.seed(random_state) if random_state is not None else None
         # A single generator for the whole call, so that the bootstrap
         # draws of different source nodes (and environments) are independent
         rng = np.random.default_rng(random_state)
